@@ -214,6 +214,43 @@ func inlineWithReturns(pk *packages.Package, f *ast.File, content []byte, call *
 			convertDefers = false
 		}
 	}
+	// the defers stay defers when the helper's return and the caller's are the same moment (the call statement is a
+	// return, or is directly followed by one, outside any loop of the caller); they are converted only where that rule
+	// would refuse — and never when one of them releases a mutex: a helper that holds a lock for its whole body is a
+	// critical section, which the lock rules judge as a unit (check-and-register helpers)
+	if convertDefers {
+		tail := form == "return"
+		if !tail {
+			if list := stmtListOf(path, stmt); list != nil {
+				for i, s := range list {
+					if s == stmt && i+1 < len(list) {
+						if _, isRet := list[i+1].(*ast.ReturnStmt); isRet {
+							tail = true
+						}
+					}
+				}
+			}
+		}
+		for _, n := range path {
+			if _, isFn := n.(*ast.FuncLit); isFn {
+				break
+			}
+			switch n.(type) {
+			case *ast.ForStmt, *ast.RangeStmt:
+				tail = false
+			}
+		}
+		if tail {
+			convertDefers = false
+		}
+		for _, td := range topDefers {
+			if sel, ok := ast.Unparen(td.stmt.Call.Fun).(*ast.SelectorExpr); ok {
+				if fn, ok := info.Uses[sel.Sel].(*types.Func); ok && fn.Pkg() != nil && fn.Pkg().Path() == "sync" && (fn.Name() == "Unlock" || fn.Name() == "RUnlock") {
+					convertDefers = false
+				}
+			}
+		}
+	}
 	if convertDefers {
 		hasDefer = false
 	}
